@@ -8,6 +8,7 @@ components may become unsupported in a future version (see #26 and #28)
 from __future__ import annotations
 
 import copy
+import math
 import re
 from typing import Any, Callable, Dict, Iterable, Mapping, Optional, cast
 
@@ -279,6 +280,9 @@ def _serialize_attr(x: object) -> str:
         return "{" + ", ".join([f'"{y}": ' + _serialize_attr(x1[y]) for y in x1]) + "}"
     if isinstance(x, bool):
         return str(x).lower()
+    if isinstance(x, float) and not math.isfinite(x):
+        # str() gives inf / -inf / nan, which are not JavaScript (json.dumps writes these too)
+        return "NaN" if math.isnan(x) else ("Infinity" if x > 0 else "-Infinity")
     if isinstance(x, (jsx, int, float)):
         return str(x)
     return '"' + str(x).replace('"', '\\"') + '"'
